@@ -5,7 +5,7 @@ import ast
 import math
 
 from .. import seeds, extract, rkcall
-from ..front import AnalysisError, dotted, fname, is_self_attr, src, walk_no_nested, const_value
+from ..front import AnalysisError, dotted, fname, is_self_attr, src, walk_no_nested, const_value, ancestors
 from ..kind import KindEngine
 from ..sym import Canon, Poly, inline_locals
 
@@ -669,6 +669,17 @@ def tolerance_scale_is_current(repo, run, rule_id="C05.10"):
             if st.lineno > [d for d in walk_no_nested(fn) if isinstance(d, ast.Assign) and any(isinstance(t, ast.Name) and t.id == "total_error_tolerance" for t in d.targets)][0].lineno:
                 continue
             back = sorted(keys_read(st.value) & written) if isinstance(st.targets[0], ast.Subscript) else sorted(written & {k})
+            # ... written on EVERY path that reaches the tolerance: a store nested under a test of its own (first attempt only, key missing, ...) leaves the entry of an
+            # earlier attempt or step in place on the other path
+            tol_st = [d for d in walk_no_nested(fn) if isinstance(d, ast.Assign) and any(isinstance(t, ast.Name) and t.id == "total_error_tolerance" for t in d.targets)][0]
+            tol_anc = [a for a in ancestors(tol_st)]
+            extra = [a for a in ancestors(st) if isinstance(a, (ast.If, ast.For, ast.While, ast.Try)) and a not in tol_anc]
+            run.judged(rid, "`%s` is stored on every path to the tolerance" % src(st)[:80], ok=not extra)
+            if extra:
+                run.report(rule_id, TPL_, st, "the scale of the relative tolerance is stored only under `%s`; on the other path the tolerance is computed from the entry an earlier attempt or "
+                                              "step left in solver_dict: after a rejected attempt with a step far beyond the problem's time scale the blown-up |dState/dt| of that attempt "
+                                              "inflates rtol*scale, and a retry whose error is orders of magnitude above atol + rtol*|y| is accepted" % src(extra[0].test if isinstance(extra[0], (ast.If, ast.While)) else extra[0])[:90],
+                           text="tolerance scale stored conditionally")
             run.judged(rid, "`%s`%s" % (src(st)[:100], " reads back %s" % back if back else ""), ok=not back)
             if back:
                 run.report(rule_id, TPL_, st, "the scale of the relative tolerance is stored as a function of its own earlier value (%s): it is a running average over past steps, "
